@@ -35,6 +35,9 @@ FUNCS = ['void f(int)', 'int main(int, char**)', '', 'auto ns::C<T>::op()::<lamb
 LINES = [0, 1, 42, 99999, 2147483647, -1]
 
 
+VIAS = ['', '', '01', '10', 'i1', '1i0', '0110', 'i']
+
+
 def gen_case(rng, hist, stream):
     """stream: 'wf' (inside the quantifier), 'shadow' (custom names shadow built-ins), 'malformed' (lone surrogates)"""
     mal = stream == 'malformed'
@@ -78,6 +81,9 @@ def gen_case(rng, hist, stream):
             hist['step_' + st[0]] = hist.get('step_' + st[0], 0) + 1
     case['steps'] = steps
     case['codec'] = rng.choice(['utf8', 'latin1'])  # locale codec of the harness process (must not matter)
+    # how the process obtained its formatter objects before the first record (round 8): '' = constructed directly,
+    # else the sequence of front-end requests ('0'/'1' = SimplePipeline::formatToJson(false/true), 'i' = JsonFormatter::instance())
+    case['via'] = rng.choice(VIAS)
     return case
 
 
@@ -171,12 +177,10 @@ def python_oracle(c, time_tok, tid, out_units):
 def run_cases(impl, model, cases):
     """returns one dict per case: time, tid, recs = [{flag, attrs, impl, model, verdict}] (one per format() call)"""
     out_i = [None] * len(cases)
-    for codec in ('utf8', 'latin1'):
-        idx = [i for i, c in enumerate(cases) if c.get('codec', 'utf8') == codec]
-        if not idx:
-            continue
+    for codec, via in sorted({(c.get('codec', 'utf8'), c.get('via', '')) for c in cases}):
+        idx = [i for i, c in enumerate(cases) if c.get('codec', 'utf8') == codec and c.get('via', '') == via]
         lines = [line_of(cases[i]) for i in idx]
-        rc, o, err = vlib.run_lines(impl, lines, [codec] if codec != 'utf8' else [])
+        rc, o, err = vlib.run_lines(impl, lines, ([codec] if codec != 'utf8' else []) + (['via=' + via] if via else []))
         if rc != 0 or len(o) != len(lines):
             return None, 'implementation crashed or stopped: rc=%s stderr=%s' % (rc, err[-400:])
         for i, x in zip(idx, o):
@@ -265,6 +269,10 @@ def describe(c, r):
             'attributes': [[repr(J.pystr(k)), ' '.join(J.value_tokens(v))] for k, v in c['attrs']],
             'steps_after_first_format': [' '.join(line_of({**view(c, 0, []), 'steps': [st]}).split('| ', 1)[1:]) for st in c.get('steps', [])],
             'locale_codec_of_the_process': c.get('codec', 'utf8'),
+            'formatter_objects_obtained_by': ('constructing JsonFormatter(flag) directly' if not c.get('via') else
+                                             'front-end requests before the first record, in order: ' + ', '.join(
+                                                 {'0': 'SimplePipeline().formatToJson(false)', '1': 'SimplePipeline().formatToJson(true)',
+                                                  'i': 'JsonFormatter::instance()'}[ch] for ch in c['via'])),
             'input_line': line_of(c), 'case': c,
             'implementation_records': [repr(J.pystr(J.unhx(rec['impl']))) for rec in r['recs']] if r else None,
             'model_records': [repr(J.pystr(J.unhx(rec['model']))) for rec in r['recs']] if r else None}
@@ -304,10 +312,10 @@ def run():
     pairs = []
     for codec in ('utf8', 'latin1'):
         for flag in (0, 1):
-            a = gen_case(chk.rng, hist, 'wf'); a.update({'codec': codec, 'flag': flag, 'steps': [],
+            a = gen_case(chk.rng, hist, 'wf'); a.update({'codec': codec, 'via': '', 'flag': flag, 'steps': [],
                 'attrs': [(J.units('pair_a'), ('s', J.units('x'))), (J.units('pair_b'), ('i', 2))]})
-            b = gen_case(chk.rng, hist, 'wf'); b.update({'codec': codec, 'flag': flag, 'steps': [], 'attrs': []})
-            c = gen_case(chk.rng, hist, 'wf'); c.update({'codec': codec, 'flag': flag, 'steps': [],
+            b = gen_case(chk.rng, hist, 'wf'); b.update({'codec': codec, 'via': '', 'flag': flag, 'steps': [], 'attrs': []})
+            c = gen_case(chk.rng, hist, 'wf'); c.update({'codec': codec, 'via': '', 'flag': flag, 'steps': [],
                 'attrs': [(J.units('pair_c'), ('b', True))]})
             pairs += [a, b, dict(a), c]
     cases = cases[:ncorpus] + pairs + cases[ncorpus:]
@@ -400,6 +408,7 @@ def run():
         'byte_exact_disagreements_model_vs_impl': len(diffs),
         'records_compared': sum(len(r['recs']) for r in res), 'multi_step_cases': sum(1 for c in cases if c.get('steps')),
         'locale_codec': {k: sum(1 for c in cases if c.get('codec', 'utf8') == k) for k in ('utf8', 'latin1')},
+        'formatter_objects_obtained_via': {(k or 'direct'): sum(1 for c in cases if c.get('via', '') == k) for k in sorted(set(VIAS))},
         'oracle_evaluated_on_impl_outputs': sum(len(r['recs']) for c, r in zip(cases, res) if c['stream'] != 'malformed'), 'oracle_falsified': len(bad),
         'python_json_parsed': len(wf_cases),
         'modes': {'compact': sum(c['flag'] for c in cases), 'indented': sum(1 - c['flag'] for c in cases)},
